@@ -579,3 +579,181 @@ Example C16_unicode_host_premises_hold :
   existsb (N.eqb 37) (utf8_encode W_stmt5_U) = false /\ Host.starts_with 91 W_stmt5_U = false /\
   Host.host_parse (idna_of lowsan4 true) W_stmt5_U = HostT.Ok (HDomain W_stmt5_A).
 Proof. split; [exact lowsan4_premises5|exact uni_host_example]. Qed.
+
+(* ---- appended block (task c16fin): the Unicode half, premises P1 / P2 discharged, parser model on non-ASCII host text ---- *)
+From RU Require Import Proofs.C16_UniDeny Proofs.C16_RTU Proofs.C16_V4 Proofs.C16_RTUModel.
+
+(* (P1) PROVED, for every adapter: for a name that ToASCII accepts at the URL deny list (what Host::parse calls), ToUnicode
+   at the EMPTY deny list (what origin.rs calls through idna::domain_to_unicode) and ToUnicode at the URL deny list are
+   the same result - text, borrowed flag and error flag.  (An error-free fail-fast run of process_inner at a deny list
+   is the run at every smaller deny list that still denies the upper-case letters: Proofs/C16_UniDeny.v deny_sub.) *)
+Theorem C16_unicode_deny_lists : forall A cfg d b a,
+  to_ascii A cfg d DENY_URL HAllow DIgnore = U32_c13.Ok (b, a) ->
+  to_unicode A cfg d DENY_EMPTY HAllow = to_unicode A cfg d DENY_URL HAllow.
+Proof. exact p1_empty_url. Qed.
+Check C16_unicode_deny_lists : forall A cfg d b a,
+  to_ascii A cfg d DENY_URL HAllow DIgnore = U32_c13.Ok (b, a) ->
+  to_unicode A cfg d DENY_EMPTY HAllow = to_unicode A cfg d DENY_URL HAllow.
+Print Assumptions C16_unicode_deny_lists.
+
+(* (P2) PROVED relative to six of the sampled adapter facts: the Unicode form of a name accepted at the URL deny list
+   has no byte '%' in its UTF-8 form and does not start with '[' (every ASCII character of it is outside the URL deny
+   list, which contains both) *)
+Theorem C16_unicode_form_clean : forall A cfg,
+  AdapterOK A -> AdapterUSV A -> NvNoTrunc A -> NvIdem A -> AsciiNoMark A -> MapPrefix A ->
+  forall d b a, bytes d -> to_ascii A cfg d DENY_URL HAllow DIgnore = U32_c13.Ok (b, a) ->
+  let t := ui_text (to_unicode A cfg d DENY_URL HAllow) in
+  ~ In 37 (utf8_encode t) /\ Host.starts_with 91 t = false.
+Proof. exact p2_url. Qed.
+Check C16_unicode_form_clean : forall A cfg,
+  AdapterOK A -> AdapterUSV A -> NvNoTrunc A -> NvIdem A -> AsciiNoMark A -> MapPrefix A ->
+  forall d b a, bytes d -> to_ascii A cfg d DENY_URL HAllow DIgnore = U32_c13.Ok (b, a) ->
+  let t := ui_text (to_unicode A cfg d DENY_URL HAllow) in
+  ~ In 37 (utf8_encode t) /\ Host.starts_with 91 t = false.
+Print Assumptions C16_unicode_form_clean.
+
+(* C16_unicode_host WITHOUT its premises P1 and P2: Host::parse (host model + IDNA model) reads the text origin.rs
+   displays for a domain - non-ASCII forms included - back as that domain, and the text consists of scalar values.
+   Premises: the eight sampled adapter facts; d is a ToASCII fixed point at the URL deny list, not empty, not ending in
+   a number (all three hold for a domain returned by Host::parse outside F-C10-1), outside Known_C12 / Known_C10_long *)
+Theorem C16_unicode_host_full : forall A cfg,
+  AdapterOK A -> AdapterUSV A -> NvNoTrunc A -> NvIdem A -> AsciiNoMark A -> MapPrefix A -> NvMapFix A -> NvNoGrow A ->
+  forall d b, Forall (fun c => c < 128) d -> to_ascii A cfg d DENY_URL HAllow DIgnore = U32_c13.Ok (b, d) ->
+  Known_C12 A cfg d DENY_URL HAllow = false -> Known_C10_long d = false ->
+  d <> [] -> Host.ends_in_a_number d = false ->
+  Host.host_parse (idna_of A cfg) (ui_text (domain_to_unicode A cfg d)) = HostT.Ok (HDomain d)
+  /\ usv_list (ui_text (domain_to_unicode A cfg d)).
+Proof. exact uni_host_rt_full. Qed.
+Check C16_unicode_host_full : forall A cfg,
+  AdapterOK A -> AdapterUSV A -> NvNoTrunc A -> NvIdem A -> AsciiNoMark A -> MapPrefix A -> NvMapFix A -> NvNoGrow A ->
+  forall d b, Forall (fun c => c < 128) d -> to_ascii A cfg d DENY_URL HAllow DIgnore = U32_c13.Ok (b, d) ->
+  Known_C12 A cfg d DENY_URL HAllow = false -> Known_C10_long d = false ->
+  d <> [] -> Host.ends_in_a_number d = false ->
+  Host.host_parse (idna_of A cfg) (ui_text (domain_to_unicode A cfg d)) = HostT.Ok (HDomain d)
+  /\ usv_list (ui_text (domain_to_unicode A cfg d)).
+Print Assumptions C16_unicode_host_full.
+
+(* the parser model on a NON-ASCII host text, arbitrary host functions: the byte string  scheme "://" UTF-8(T) [":" port]
+   - T any non-empty list of scalar values above the space without : / \ ? # @ [ ] (freec), ASCII or not - parses to a URL
+   whose origin is (scheme, h, port), when Host::parse reads T as h and Display writes h as a non-empty text not ending in '/' *)
+Theorem C16_rt_unicode_text : forall dbg hp ho hd s c t h p,
+  In s [s_ftp; s_http; s_https; s_ws; s_wss] -> p <= 65535 ->
+  forallb freec (c :: t) = true -> usv_list (c :: t) -> hp (c :: t) = HostT.Ok h ->
+  hd h = host_fmt hd h -> host_fmt hd h <> [] -> ends_with_byte 47 (host_fmt hd h) = false ->
+  nlen (tuple_serialization s (host_fmt hd h) p) < U32_MAX_P ->
+  exists w, url_parse dbg hp ho hd (tuple_serialization s (utf8_encode (c :: t)) p) = POk w
+            /\ forall f k, url_origin_fuel dbg hp ho hd f k w = OOk (Tuple s h p) k.
+Proof. exact rt_text_free. Qed.
+Check C16_rt_unicode_text : forall dbg hp ho hd s c t h p,
+  In s [s_ftp; s_http; s_https; s_ws; s_wss] -> p <= 65535 ->
+  forallb freec (c :: t) = true -> usv_list (c :: t) -> hp (c :: t) = HostT.Ok h ->
+  hd h = host_fmt hd h -> host_fmt hd h <> [] -> ends_with_byte 47 (host_fmt hd h) = false ->
+  nlen (tuple_serialization s (host_fmt hd h) p) < U32_MAX_P ->
+  exists w, url_parse dbg hp ho hd (tuple_serialization s (utf8_encode (c :: t)) p) = POk w
+            /\ forall f k, url_origin_fuel dbg hp ho hd f k w = OOk (Tuple s h p) k.
+Print Assumptions C16_rt_unicode_text.
+
+(* THE UNICODE HALF for origins of parse results, non-ASCII ToUnicode forms included: parser model + host model + IDNA
+   model (Host::parse's IDNA step = idna_of A cfg) + ToUnicode model (idna::domain_to_unicode = origin_tu A cfg), ANY
+   input, any blob nesting, any Host::parse_opaque.  If the origin of the parse result is (s, Domain d, p), its Unicode
+   serialization parses to a URL with that origin.  Premises: the eight sampled adapter facts; d is outside Known_C12
+   (F-C12-1 / F-C16-1) and Known_C10_long (F-C10-1); ASCII serialization shorter than 2^32.  No IdnaOK, no premise on
+   the host functions: that d - a domain RETURNED by Host::parse, outside Known_C10_long - is a fixed point of the IDNA
+   step is proved (C10, idempotence of ToASCII). *)
+Theorem C16_rt_unicode_model : forall A cfg,
+  AdapterOK A -> AdapterUSV A -> NvNoTrunc A -> NvIdem A -> AsciiNoMark A -> MapPrefix A -> NvMapFix A -> NvNoGrow A ->
+  forall dbg ho input u c s d p c',
+  url_parse dbg (Host.host_parse (idna_of A cfg)) ho Host.host_display input = POk u ->
+  url_origin dbg (Host.host_parse (idna_of A cfg)) ho Host.host_display c u = OOk (Tuple s (HDomain d) p) c' ->
+  Known_C12 A cfg d DENY_URL HAllow = false -> Known_C10_long d = false ->
+  nlen (ascii_serialization Host.host_display (Tuple s (HDomain d) p)) < U32_MAX_P ->
+  exists w, url_parse dbg (Host.host_parse (idna_of A cfg)) ho Host.host_display
+              (unicode_serialization Host.host_display (origin_tu A cfg) (Tuple s (HDomain d) p)) = POk w
+            /\ url_origin dbg (Host.host_parse (idna_of A cfg)) ho Host.host_display c' w = OOk (Tuple s (HDomain d) p) c'.
+Proof. exact rt_unicode_domain_model. Qed.
+Check C16_rt_unicode_model : forall A cfg,
+  AdapterOK A -> AdapterUSV A -> NvNoTrunc A -> NvIdem A -> AsciiNoMark A -> MapPrefix A -> NvMapFix A -> NvNoGrow A ->
+  forall dbg ho input u c s d p c',
+  url_parse dbg (Host.host_parse (idna_of A cfg)) ho Host.host_display input = POk u ->
+  url_origin dbg (Host.host_parse (idna_of A cfg)) ho Host.host_display c u = OOk (Tuple s (HDomain d) p) c' ->
+  Known_C12 A cfg d DENY_URL HAllow = false -> Known_C10_long d = false ->
+  nlen (ascii_serialization Host.host_display (Tuple s (HDomain d) p)) < U32_MAX_P ->
+  exists w, url_parse dbg (Host.host_parse (idna_of A cfg)) ho Host.host_display
+              (unicode_serialization Host.host_display (origin_tu A cfg) (Tuple s (HDomain d) p)) = POk w
+            /\ url_origin dbg (Host.host_parse (idna_of A cfg)) ho Host.host_display c' w = OOk (Tuple s (HDomain d) p) c'.
+Print Assumptions C16_rt_unicode_model.
+
+(* IPv4 hosts, NO hypothesis: Host::parse's IDNA step (IDNA model at the URL deny list, EVERY adapter) maps the
+   dotted-decimal text of an IPv4 address to itself - the clause v4_fixed of C09_IdnaOK_of_model, which was a premise
+   there - and the host model linked with it reads the text Display writes for an IPv4 address back as that address *)
+Theorem C16_ipv4_display_model : forall A cfg,
+  v4_fixed A cfg
+  /\ (forall a, a < 4294967296 -> Host.host_parse (idna_of A cfg) (Host.ipv4_display a) = HostT.Ok (HIpv4 a)).
+Proof. intros A cfg. split; [exact (v4_fixed_model A cfg)|exact (ipv4_display_rt_model A cfg)]. Qed.
+Check C16_ipv4_display_model : forall A cfg,
+  v4_fixed A cfg
+  /\ (forall a, a < 4294967296 -> Host.host_parse (idna_of A cfg) (Host.ipv4_display a) = HostT.Ok (HIpv4 a)).
+Print Assumptions C16_ipv4_display_model.
+
+(* THE CORRECTED ROUND-TRIP STATEMENT (C16_rt_statement is refuted: its host functions are arbitrary): with the host
+   functions of the models - Host::parse = host model + IDNA model at the URL deny list, Display = host model,
+   idna::domain_to_unicode = ToUnicode model - for the origin o of EVERY parse result, if o is a tuple then its ASCII AND its
+   Unicode serialization parse to URLs whose origin is o.  Relative to the eight sampled adapter facts, outside the known
+   classes on the host of o (host_known_free: a domain is outside Known_C12 and Known_C10_long; nothing for an IPv4 or
+   IPv6 address), for an ASCII serialization shorter than 2^32. *)
+Definition C16_rt_statement2 : Prop :=
+  forall A cfg,
+  AdapterOK A -> AdapterUSV A -> NvNoTrunc A -> NvIdem A -> AsciiNoMark A -> MapPrefix A -> NvMapFix A -> NvNoGrow A ->
+  forall dbg ho input u c o c',
+  let hp := Host.host_parse (idna_of A cfg) in
+  let hd := Host.host_display in
+  url_parse dbg hp ho hd input = POk u -> url_origin dbg hp ho hd c u = OOk o c' -> is_tuple o = true ->
+  (forall s h p, o = Tuple s h p -> host_known_free A cfg h) ->
+  nlen (ascii_serialization hd o) < U32_MAX_P ->
+  (exists w, url_parse dbg hp ho hd (ascii_serialization hd o) = POk w /\ url_origin dbg hp ho hd c' w = OOk o c')
+  /\ (exists w, url_parse dbg hp ho hd (unicode_serialization hd (origin_tu A cfg) o) = POk w
+                /\ url_origin dbg hp ho hd c' w = OOk o c').
+Theorem C16_rt : C16_rt_statement2.
+Proof. exact rt_both_model. Qed.
+Check C16_rt : C16_rt_statement2.
+Print Assumptions C16_rt.
+
+(* THE EXCLUSION OF Known_C12 IN C16_rt IS NECESSARY, and the property as worded ("the Unicode serialization of a tuple
+   origin parses back to a URL with the same origin") is FALSE of the code (F-C16-1 = F-C12-1 at the level of origins):
+   for an adapter that satisfies all eight premises there is an input - https://xn--xn--ss-ztda/ - whose parse result has
+   the tuple origin (https, xn--xn--ss-ztda, 443), the domain is a fixed point of the IDNA step and outside
+   Known_C10_long, the ASCII serialization round-trips, the domain is in Known_C12, and the Unicode serialization
+   https://xn--<U+02EF><U+02EF>ss is REJECTED by Url::parse (IdnaError).  Confirmed on the real crates:
+   Url::parse("https://xn--xn--ss-ztda/").unwrap().origin().unicode_serialization() == "https://xn--\u{2ef}\u{2ef}ss" and
+   Url::parse of that is Err(IdnaError) (known mode of the C16 harness, KNOWN-FINDING F-C16-1). *)
+Theorem C16_rt_unicode_refuted : rt_unicode_refuted_stmt.
+Proof. exact rt_unicode_refuted. Qed.
+Check C16_rt_unicode_refuted :
+  exists A,
+    (AdapterOK A /\ AdapterUSV A /\ NvNoTrunc A /\ NvIdem A /\ AsciiNoMark A /\ MapPrefix A /\ NvMapFix A /\ NvNoGrow A)
+    /\ exists input u s d p,
+         url_parse true (Host.host_parse (idna_of A true)) Host.host_parse_opaque Host.host_display input = POk u
+         /\ url_origin true (Host.host_parse (idna_of A true)) Host.host_parse_opaque Host.host_display 0 u = OOk (Tuple s (HDomain d) p) 0
+         /\ idna_of A true d = Some d /\ Known_C10_long d = false /\ Known_C12 A true d DENY_URL HAllow = true
+         /\ (exists w, url_parse true (Host.host_parse (idna_of A true)) Host.host_parse_opaque Host.host_display
+                         (ascii_serialization Host.host_display (Tuple s (HDomain d) p)) = POk w
+                       /\ url_origin true (Host.host_parse (idna_of A true)) Host.host_parse_opaque Host.host_display 0 w
+                          = OOk (Tuple s (HDomain d) p) 0)
+         /\ unicode_serialization Host.host_display (origin_tu A true) (Tuple s (HDomain d) p) = t_https_xn_u
+         /\ url_parse true (Host.host_parse (idna_of A true)) Host.host_parse_opaque Host.host_display t_https_xn_u = PErr IdnaError.
+Print Assumptions C16_rt_unicode_refuted.
+
+(* non-vacuity of C16_rt / C16_rt_unicode_model, executed inside Coq (adapter lowsan4, whose eight premises are
+   C16_unicode_host_premises_hold): HTTPS://A.B<u-umlaut>cher:443/x has the origin (https, a.xn--bcher-kva, 443); the domain is
+   outside the known classes; the ASCII serialization is https://a.xn--bcher-kva, the Unicode serialization is the
+   non-ASCII text https://a.b<u-umlaut>cher; both parse to a URL with the same origin *)
+Example C16_rt_premises_hold :
+  let o := Tuple s_https (HDomain W_stmt5_A) 443 in
+  ex_origin_of t_HTTPS_A_Bucher_443_x = Some (OOk o 0)
+  /\ (idna_of lowsan4 true W_stmt5_A = Some W_stmt5_A /\ Known_C12 lowsan4 true W_stmt5_A DENY_URL HAllow = false
+      /\ Known_C10_long W_stmt5_A = false)
+  /\ ascii_serialization Host.host_display o = t_https_a_xn_bcher
+  /\ unicode_serialization Host.host_display (origin_tu lowsan4 true) o = t_https_a_bucher
+  /\ ex_origin_of t_https_a_xn_bcher = Some (OOk o 0)
+  /\ ex_origin_of t_https_a_bucher = Some (OOk o 0).
+Proof. exact rt_unicode_example. Qed.
